@@ -78,6 +78,78 @@ fn over_declares_bin(input: &[u8], be: bool) -> bool {
     0x20 + d + 4 * p + 8 * l > input.len() as u64
 }
 
+/// Does the buffer, read as a bin archive, reference a string or label name that starts inside the
+/// buffer and has no terminator before the end of the buffer? (Such an entry "declares more than
+/// the buffer holds": the parser has to reject it, and must not go looking for the NUL elsewhere.)
+fn references_unterminated_string(input: &[u8], be: bool) -> bool {
+    if input.len() < 0x20 {
+        return false;
+    }
+    let d = get32(input, 4, be).unwrap() as usize;
+    let p = get32(input, 8, be).unwrap() as usize;
+    let l = get32(input, 12, be).unwrap() as usize;
+    let (ptab, ltab, text) = match (|| {
+        let ptab = 0x20usize.checked_add(d)?;
+        let ltab = ptab.checked_add(p.checked_mul(4)?)?;
+        let text = ltab.checked_add(l.checked_mul(8)?)?;
+        if text > input.len() {
+            None
+        } else {
+            Some((ptab, ltab, text))
+        }
+    })() {
+        Some(x) => x,
+        None => return false,
+    };
+    let open_ended = |at: usize| at < input.len() && !input[at..].contains(&0);
+    for i in 0..p {
+        let cell = get32(input, ptab + 4 * i, be).unwrap() as usize;
+        if cell % 4 != 0 || cell + 4 > d {
+            return false; // malformed in another way: no claim
+        }
+        let v = get32(input, 0x20 + cell, be).unwrap() as usize;
+        if v > d {
+            if let Some(at) = 0x20usize.checked_add(v) {
+                if open_ended(at) {
+                    return true;
+                }
+            }
+        }
+    }
+    for i in 0..l {
+        let addr = get32(input, ltab + 8 * i, be).unwrap() as usize;
+        if addr > d {
+            return false;
+        }
+        let off = get32(input, ltab + 8 * i + 4, be).unwrap() as usize;
+        if let Some(at) = text.checked_add(off) {
+            if open_ended(at) {
+                return true;
+            }
+        }
+    }
+    false
+}
+
+/// The same for a GameCube/Wii pack: an entry whose name starts inside the buffer and runs to its end.
+fn pack_has_unterminated_name(input: &[u8]) -> bool {
+    if input.len() < 8 || &input[..4] != b"pack" {
+        return false;
+    }
+    let count = u16::from_be_bytes([input[4], input[5]]) as usize;
+    if 8 + 16 * count > input.len() {
+        return false;
+    }
+    for i in 0..count {
+        let e = 8 + 16 * i;
+        let name = u32::from_be_bytes([input[e + 4], input[e + 5], input[e + 6], input[e + 7]]) as usize;
+        if name < input.len() && !input[name..].contains(&0) {
+            return true;
+        }
+    }
+    false
+}
+
 /// Run every archive-family entry point on `input`.
 pub fn probe(c: &mut Case, input: &[u8], what: &str) {
     // every parser sees a private exact-size copy at a (usually) misaligned address
@@ -87,6 +159,9 @@ pub fn probe(c: &mut Case, input: &[u8], what: &str) {
     for be in [false, true] {
         let en = if be { Endian::Big } else { Endian::Little };
         let tag = if be { "bin_be" } else { "bin_le" };
+        if references_unterminated_string(input, be) {
+            p.c.sit("bin_image_referencing_an_unterminated_string");
+        }
         let r = p.call(&format!("{}:from_bytes", tag), || BinArchive::from_bytes(input, en).map_err(|e| format!("{:?}", e)));
         if let Some(Ok(a)) = r {
             if over_declares_bin(input, be) {
@@ -94,6 +169,13 @@ pub fn probe(c: &mut Case, input: &[u8], what: &str) {
                     "over_declaring_header_accepted",
                     &format!("over_declared:{}", tag),
                     format!("BinArchive::from_bytes accepted a {} header that declares more data/pointers/labels than the {} bytes present [{}] input={}", if be { "BE" } else { "LE" }, input.len(), what, hex_short(input, 160)),
+                );
+            }
+            if references_unterminated_string(input, be) {
+                p.c.fail(
+                    "over_declaring_header_accepted",
+                    &format!("unterminated_string_accepted:{}", tag),
+                    format!("BinArchive::from_bytes accepted a {} image in which a referenced string / label name runs to the end of the {}-byte buffer without a terminator [{}] input={}", if be { "BE" } else { "LE" }, input.len(), what, hex_short(input, 160)),
                 );
             }
             let _ = p.call(&format!("{}:serialize", tag), || a.serialize().map(|_| ()).map_err(|e| format!("{:?}", e)));
@@ -113,7 +195,20 @@ pub fn probe(c: &mut Case, input: &[u8], what: &str) {
             let fmt = if unicode { TextArchiveFormat::Unicode } else { TextArchiveFormat::ShiftJIS };
             let tag = format!("text_{}_{}", if unicode { "utf16" } else { "sjis" }, if be { "be" } else { "le" });
             let r = p.call(&format!("{}:from_bytes", tag), || TextArchive::from_bytes(input, fmt, en).map_err(|e| format!("{:?}", e)));
+            // strings of a text archive are read one after the other from the data region, each followed
+            // by padding to the next cell: if the region holds no zero byte at all, not even the first
+            // string (the title in the UTF-16 format) ends inside it
+            let data_open_ended = input.len() >= 0x20 && {
+                let d = get32(input, 4, be).unwrap() as usize;
+                d > 0 && 0x20 + d <= input.len() && !input[0x20..0x20 + d].contains(&0)
+            };
+            if data_open_ended {
+                p.c.sit("text_archive_data_ending_inside_a_string");
+            }
             if let Some(Ok(t)) = r {
+                if data_open_ended {
+                    p.c.fail("over_declaring_header_accepted", &format!("unterminated_string_accepted:{}", tag), format!("TextArchive::from_bytes accepted an archive whose data region ends inside a string [{}] input={}", what, hex_short(input, 160)));
+                }
                 if over_declares_bin(input, be) {
                     p.c.fail("over_declaring_header_accepted", &format!("over_declared:{}", tag), format!("TextArchive::from_bytes accepted an over-declaring header [{}] input={}", what, hex_short(input, 160)));
                 }
@@ -131,7 +226,13 @@ pub fn probe(c: &mut Case, input: &[u8], what: &str) {
             }
         }
     }
+    if pack_has_unterminated_name(input) {
+        p.c.sit("pack_with_an_unterminated_name");
+    }
     if let Some(Ok(m)) = p.call("pack:parse", || fe9_arc::parse(input).map_err(|e| format!("{:?}", e))) {
+        if pack_has_unterminated_name(input) {
+            p.c.fail("over_declaring_header_accepted", "unterminated_string_accepted:pack", format!("fe9_arc::parse accepted a pack in which an entry name runs to the end of the {}-byte buffer without a terminator [{}] input={}", input.len(), what, hex_short(input, 160)));
+        }
         // oracle: the entry table and every entry must lie inside the buffer
         if input.len() >= 8 {
             let count = u16::from_be_bytes([input[4], input[5]]) as usize;
@@ -617,6 +718,13 @@ pub fn run(cx: &mut Ctx) {
             let start = rng.below(stride);
             for (what, m) in ms.iter().skip(start).step_by(stride) {
                 probe(c, m, what);
+            }
+            // the seed without its last byte(s): in canonical images that is the terminator of the last
+            // string of the text section / name table
+            for cut in 1..=3usize {
+                if s.bytes.len() > 0x20 + cut {
+                    probe(c, &s.bytes[..s.bytes.len() - cut], "seed minus its last bytes");
+                }
             }
             // random splices and bit flips
             for _ in 0..if miri { 2 } else { 24 } {
